@@ -5,6 +5,7 @@ case files, and the numpy-free exact references used by the property-level oracl
 (Not a property module: tools/gen_manifest.py only looks at props/c[0-9]*.py.)
 """
 import contextlib
+import copy
 import json
 import math
 import os
@@ -93,7 +94,9 @@ def make_user_model(name, as_lambda=False):
         return g
     return f
 
-MODES = ("lists", "arrays", "marray", "marray_kwerr", "dataset", "dataset_method", "kwargs")
+MODES = ("lists", "arrays", "marray", "marray_kwerr", "dataset", "dataset_method", "dataset_kw", "plot_fit", "kwargs")
+NUMTYPES = ("int", "np.int32", "np.float32", "np.float64", "Fraction", "array-int64", "array-float32")
+PARNAME_POOL = ("a", "b", "slope", "intercept", "k", "a", "amplitude", "mean", "x")
 EXN = {"ValueError": "EValue", "TypeError": "EType"}
 
 
@@ -187,7 +190,7 @@ def ref_grad(name, params, x, rel=1e-6):
     """gradient of the reference model with respect to the parameters (central differences, Richardson)"""
     g = []
     for k in range(len(params)):
-        h = rel * max(1.0, abs(params[k]))
+        h = rel * (abs(params[k]) or 1.0)
 
         def at(t):
             p = list(params)
@@ -327,6 +330,19 @@ def gen_poly_case(rng, malformed=False):
         case["xrange"] = rng.choice(["empty_tuple", "empty_list"])
     if rng.random() < 0.5:
         case["xrange_type"] = "list"
+    add_dimensions(rng, case)
+    if case["mode"] == "plot_fit" and case["xrange"] is not None:
+        case["mode"] = "dataset_kw"
+    if rng.random() < 0.2:
+        # the same data in other units (y and sigma_y times 2^-30 ~ 1e-9, 2^-40 ~ 1e-12 or 2^30 ~ 1e9)
+        k = rng.choice([2.0 ** -30, 2.0 ** -40, 2.0 ** 30])
+        case["ys"] = [y * k for y in case["ys"]]
+        case["yscale"] = k
+        if case["yerr"] is not None:
+            case["yerr"] = [e * k for e in case["yerr"]] if isinstance(case["yerr"], list) else case["yerr"] * k
+    if isinstance(case["yerr"], list) and rng.random() < 0.15:
+        i = rng.randrange(n)
+        case["yerr"][i] = case["yerr"][i] / 64.0          # one much smaller uncertainty among ordinary ones
     if malformed:
         what = rng.choice(["lo>hi", "badlen", "nonreal", "few", "empty", "toofew_all"])
         case["malformed"] = what
@@ -352,6 +368,56 @@ def gen_poly_case(rng, malformed=False):
     return case
 
 
+def add_dimensions(rng, case):
+    """recurring blind spots: order of the data, number types, parameter names (equal names too), data that were read /
+    used in arithmetic before the fit"""
+    r = rng.random()
+    if r < 0.12 or r > 0.94:
+        order = sorted(range(len(case["xs"])), key=lambda i: case["xs"][i], reverse=r > 0.94)
+        for key in ("xs", "ys", "xerr", "yerr"):
+            if isinstance(case.get(key), list):
+                case[key] = [case[key][i] for i in order]
+        case["order"] = "descending" if r > 0.94 else "ascending"
+    if case["kind"] == "poly" and rng.random() < 0.25:
+        case["numtype"] = rng.choice(NUMTYPES)
+    if rng.random() < 0.2:
+        npar = nparams_of(case)
+        case["parnames"] = [rng.choice(PARNAME_POOL) for _ in range(npar)]      # equal names happen
+    if rng.random() < 0.2:
+        case["preread"] = True
+
+
+def convert_numbers(case, values):
+    """the numbers in another Python / numpy type, when every one of them is exactly representable there"""
+    import numpy as np
+    from fractions import Fraction
+    t = case.get("numtype")
+    if t is None or values is None:
+        return values
+    scalar = not isinstance(values, list)
+    vals = [values] if scalar else list(values)
+    try:
+        if t == "int":
+            out = [int(v) for v in vals]
+        elif t == "np.int32":
+            out = [np.int32(v) for v in vals]
+        elif t == "np.float32":
+            out = [np.float32(v) for v in vals]
+        elif t == "np.float64":
+            out = [np.float64(v) for v in vals]
+        elif t == "Fraction":
+            out = [Fraction(v) for v in vals]
+        elif t == "array-int64":
+            out = np.array(vals, dtype=np.int64) if not scalar else [int(vals[0])]
+        else:
+            out = np.array(vals, dtype=np.float32) if not scalar else [np.float32(vals[0])]
+        if any(float(o) != float(v) for o, v in zip(out, vals)):
+            return values
+    except (ValueError, TypeError, OverflowError):
+        return values
+    return out[0] if scalar else out
+
+
 def well_posed_poly(case):
     """reject data that the polynomial fits (almost) exactly: the covariance would be rounding noise"""
     pts = [p for p in points(case) if in_range_ref(case, p[0])]
@@ -365,7 +431,22 @@ def well_posed_poly(case):
     return r[2] * 1000 >= tot and tot > 0
 
 
-def gen_curve_case(rng, noise_free=False, model=None):
+def scale_params(model, params, k):
+    """parameters of k * f(x; params)"""
+    if model in ("exponential",):
+        idx = [0]
+    elif model == "gaussian":
+        idx = [0]
+    elif model == "u_exponential":
+        idx = [1]
+    elif model == "u_gaussian":
+        idx = [2]
+    else:                       # linear in all parameters
+        idx = range(len(params))
+    return [p * k if i in idx else p for i, p in enumerate(params)]
+
+
+def gen_curve_case(rng, noise_free=False, model=None, yscale=None):
     model = model or (rng.choice(CURVE_MODELS) if rng.random() < 0.6 else rng.choice(sorted(USER_MODELS)))
     if model in ("u_linear", "u_quadratic", "u_polynomial", "u_model4", "u_model5"):
         npar = USER_MODELS[model][1]
@@ -397,11 +478,15 @@ def gen_curve_case(rng, noise_free=False, model=None):
     # no generating parameter at (or next to) zero: MINPACK's forward-difference step is relative to |p|, so scipy's
     # covariance is numerical noise when an optimum is ~1e-9 instead of exactly 0 (a limit of the oracle, not of QExPy)
     truth = [t if abs(t) >= 0.125 else 0.25 for t in truth]
+    # the same physics in other units: y (and with it sigma_y and the parameters that carry the unit of y) times 2^-30
+    # (~1e-9, e.g. nA written in A) or 2^30; nothing in the property depends on the magnitude of the numbers
+    yscale = rng.choice([1.0, 1.0, 1.0, 2.0 ** -30, 2.0 ** 30]) if yscale is None else yscale
+    truth = scale_params(model, truth, yscale)
     scale = max(abs(ref_model(model, truth, x)) for x in xs) or 1.0
     amp = 0.0 if noise_free else scale * rng.choice([0.01, 0.03])
     ys = [ref_model(model, truth, x) + (rng.randrange(-8, 9) / 8.0) * amp for x in xs]
     guess = [t * (1 + rng.choice([-1, 1]) * 0.05) if t else 0.05 for t in truth]
-    case = {"kind": "curve", "model": model, "truth": truth, "guess": guess, "noise_free": noise_free,
+    case = {"kind": "curve", "model": model, "truth": truth, "guess": guess, "noise_free": noise_free, "yscale": yscale,
             "as_lambda": model in USER_MODELS and rng.random() < 0.4,
             "xs": xs, "ys": ys, "xerr": gen_err_pattern(rng, n) if rng.random() < 0.65 else None,
             "yerr": gen_err_pattern(rng, n), "xrange": None, "mode": rng.choice(MODES)}
@@ -419,6 +504,9 @@ def gen_curve_case(rng, noise_free=False, model=None):
             case["yerr"] = scale / 16.0
     if rng.random() < 0.25 and n >= nparams_of(case) + 4:
         case["xrange"] = gen_xrange(rng, xs, nparams_of(case) + 1)
+    add_dimensions(rng, case)
+    if case["mode"] == "plot_fit" and case["xrange"] is not None:
+        case["mode"] = "dataset_kw"
     return case
 
 
@@ -470,19 +558,20 @@ def recording(rec):
         rec.deriv.append({"x0": [float(v) for v in np.atleast_1d(x0)], "out": [float(v) for v in np.atleast_1d(out)]})
         return out
 
-    o_result = ff.XYFitResult
+    o_init = ff.XYFitResult.__init__
 
-    def result(**kw):
+    def init(self, **kw):
+        # (the class itself stays in place: other modules test isinstance(result, XYFitResult))
         rec.result_args.append({"params": kw.get("res_params"), "pcorr": kw.get("pcorr")})
-        return o_result(**kw)
+        return o_init(self, **kw)
 
     ff.np.polyfit, ff.opt.curve_fit, ff.utils.numerical_derivative = polyfit, curve_fit, numerical_derivative
-    ff.XYFitResult = result
+    ff.XYFitResult.__init__ = init
     try:
         yield rec
     finally:
         ff.np.polyfit, ff.opt.curve_fit, ff.utils.numerical_derivative = o_poly, o_curve, o_deriv
-        ff.XYFitResult = o_result
+        ff.XYFitResult.__init__ = o_init
 
 
 def model_arg(case):
@@ -524,35 +613,72 @@ def call_fit(case):
         kw["parguess"] = list(case["guess"])
     if case["xrange"] is not None:
         kw["xrange"] = xrange_arg(case)
-    xs, ys, xerr, yerr = list(case["xs"]), list(case["ys"]), case["xerr"], case["yerr"]
+    if case.get("parnames"):
+        kw["parnames"] = list(case["parnames"])
+    xs, ys = convert_numbers(case, list(case["xs"])), convert_numbers(case, list(case["ys"]))
+    xerr, yerr = convert_numbers(case, case["xerr"]), convert_numbers(case, case["yerr"])
+    if isinstance(kw.get("xrange"), (tuple, list)) and len(kw["xrange"]) == 2 and case.get("numtype") \
+            and not isinstance(kw["xrange"][0], str):
+        kw["xrange"] = type(kw["xrange"])(convert_numbers(case, [float(v) for v in kw["xrange"]]))
     model = model_arg(case)
     mode = case["mode"]
+    aslist = (lambda v: v if isinstance(v, np.ndarray) else list(v))
 
     def errkw():
         e = {}
         if xerr is not None:
-            e["xerr"] = list(xerr) if isinstance(xerr, list) else xerr
+            e["xerr"] = aslist(xerr) if isinstance(xerr, (list, np.ndarray)) else xerr
         if yerr is not None:
-            e["yerr"] = list(yerr) if isinstance(yerr, list) else yerr
+            e["yerr"] = aslist(yerr) if isinstance(yerr, (list, np.ndarray)) else yerr
         return e
+
+    def preread(*objs):
+        """the data are looked at / used before they are fitted"""
+        if case.get("preread"):
+            for o in objs:
+                _ = str(o)
+                if hasattr(o, "values"):
+                    _ = o.values, o.errors, o.mean(), (o * 2 + 1)[0].value
+                if hasattr(o, "xdata"):
+                    _ = str(o.xdata), o.xvalues, o.yerr, (o.xdata + o.ydata)[0].error
     if mode == "lists":
-        return q.fit(xs, ys, model, **errkw(), **kw)
+        return q.fit(aslist(xs), aslist(ys), model, **errkw(), **kw)
     if mode == "arrays":
         e = {k: (np.array(v) if isinstance(v, list) else v) for k, v in errkw().items()}
         return q.fit(np.array(xs), np.array(ys), model, **e, **kw)
     if mode == "marray":
-        xa = q.MeasurementArray(xs, xerr) if xerr is not None else q.MeasurementArray(xs)
-        ya = q.MeasurementArray(ys, yerr) if yerr is not None else q.MeasurementArray(ys)
+        xa = q.MeasurementArray(aslist(xs), xerr) if xerr is not None else q.MeasurementArray(aslist(xs))
+        ya = q.MeasurementArray(aslist(ys), yerr) if yerr is not None else q.MeasurementArray(aslist(ys))
+        preread(xa, ya)
         return q.fit(xa, ya, model, **kw)
     if mode == "marray_kwerr":
         # MeasurementArrays created without uncertainties, the uncertainties given to fit()
-        return q.fit(q.MeasurementArray(xs), q.MeasurementArray(ys), model, **errkw(), **kw)
+        xa, ya = q.MeasurementArray(aslist(xs)), q.MeasurementArray(aslist(ys))
+        preread(xa, ya)
+        return q.fit(xa, ya, model, **errkw(), **kw)
     if mode == "dataset":
-        return q.fit(q.XYDataSet(xs, ys, **errkw()), model, **kw)
+        ds = q.XYDataSet(aslist(xs), aslist(ys), **errkw())
+        preread(ds)
+        return q.fit(ds, model, **kw)
     if mode == "dataset_method":
-        return q.XYDataSet(xdata=xs, ydata=ys, **errkw()).fit(model, **kw)
+        ds = q.XYDataSet(xdata=aslist(xs), ydata=aslist(ys), **errkw())
+        preread(ds)
+        return ds.fit(model, **kw)
+    if mode == "dataset_kw":
+        ds = q.XYDataSet(aslist(xs), aslist(ys), **errkw())
+        preread(ds)
+        return q.fit(dataset=ds, model=model, **kw)
+    if mode == "plot_fit":
+        # the fit entry point of a figure: fits the last data set added to the plot
+        import qexpy.plotting as qplt
+        import matplotlib.pyplot as pyplot
+        fig = qplt.plot(aslist(xs), aslist(ys), **errkw())
+        try:
+            return fig.fit(model=model, **kw)
+        finally:
+            pyplot.close("all")
     if mode == "kwargs":
-        return q.fit(xdata=xs, ydata=ys, model=model, **errkw(), **kw)
+        return q.fit(xdata=aslist(xs), ydata=aslist(ys), model=model, **errkw(), **kw)
     raise ValueError(mode)
 
 
@@ -610,7 +736,7 @@ def run_call(thunk, case, observe_result=False):
 #         "xs", "ys", "xerr", "yerr": the data the object is created with,
 #         "requests": [ {kind, model, deg, designator, degrees_kw, xrange, xrange_type, guess, ...}, ... ],
 #         "steps": [ ["fit", k] | ["yerr", [..]] | ["xerr", [..]] | ["y", i, v] | ["yerr1", i, e] | ["xerr1", i, e] ]}
-REQ_KEYS = ("kind", "model", "deg", "designator", "degrees_kw", "xrange", "xrange_type", "guess", "truth", "noise_free", "as_lambda")
+REQ_KEYS = ("malformed", "kind", "model", "deg", "designator", "degrees_kw", "xrange", "xrange_type", "guess", "truth", "noise_free", "as_lambda", "parnames")
 
 
 def request_of(case):
@@ -655,6 +781,8 @@ def history_in_domain(case):
     for _, _, cur in states:
         if not in_domain(cur):
             return False
+        if cur.get("malformed"):
+            continue
         if cur["kind"] == "poly" and not well_posed_poly(cur):
             return False
         if cur["kind"] == "curve" and not any(e > 0 for e in cur["yerr"]) and any(e > 0 for e in cur["xerr"]):
@@ -693,6 +821,8 @@ def run_history(case, observe_result=False):
                 kw["parguess"] = list(cur["guess"])
             if cur["xrange"] is not None:
                 kw["xrange"] = xrange_arg(cur)
+            if cur.get("parnames"):
+                kw["parnames"] = list(cur["parnames"])
             model = model_arg(cur)
             if holder == "marrays":
                 thunk = (lambda m=model, kw=kw: q.fit(xa, ya, m, **kw))
@@ -738,9 +868,11 @@ def gen_history(rng, curve=None):
                 other["xrange"] = gen_xrange(rng, base["xs"], npar) if base["xrange"] is None else None
             elif r < 0.75:
                 other.update(model="polynomial", deg=(base["deg"] % 3) + 1, degrees_kw=True)
+                other.pop("parnames", None)
             else:
                 m = "linear" if base["model"] != "linear" else "quadratic"
                 other.update(model=m, deg={"linear": 1, "quadratic": 2}[m])
+                other.pop("parnames", None)
             if other != reqs[0] and len(base["xs"]) > nparams_of(dict(base, **other)) + 1:
                 reqs.append(other)
 
@@ -773,6 +905,14 @@ def gen_history(rng, curve=None):
         steps = [["fit", 0]]
         if len(reqs) == 2:
             steps += [["fit", 1], ["fit", 0]]
+        bad = None
+        if rng.random() < 0.25:
+            # a request that must be rejected, offered twice, leaves nothing behind: the fits after it are unaffected
+            what = rng.choice(["lo>hi", "badlen", "nonreal"])
+            reqs.append(dict(reqs[0], malformed=what,
+                             xrange=[max(base["xs"]), min(base["xs"])] if what == "lo>hi" else what))
+            bad = len(reqs) - 1
+            steps += [["fit", bad], ["fit", bad], ["fit", 0]]
         for _ in range(rng.randrange(1, 3)):
             st = edit()
             steps.append(st)
@@ -781,7 +921,9 @@ def gen_history(rng, curve=None):
             elif st[0] == "yerr1":
                 yerr[st[1]] = st[2]
             steps.append(["fit", 0])
-            if len(reqs) == 2:
+            if bad is not None and rng.random() < 0.5:
+                steps += [["fit", bad], ["fit", 0]]
+            if len(reqs) - (bad is not None) == 2:
                 steps.append(["fit", 1])
                 if rng.random() < 0.5:
                     steps.append(["fit", 0])
@@ -791,6 +933,92 @@ def gen_history(rng, curve=None):
         if history_in_domain(case):
             return case
     return None
+
+
+# =============================================================================================================
+# sessions with several fit results alive at once: every EARLIER result is looked at again after the later fits
+# =============================================================================================================
+def gen_multi(rng):
+    """2-3 fits whose parameters carry the same names (same model, other data), sometimes a different model in between"""
+    for _ in range(100):
+        r = rng.random()
+        if r < 0.55:
+            first = gen_poly_case(rng)
+            if isinstance(first["xrange"], str) or not well_posed_poly(first):
+                continue
+
+            def another():
+                for _ in range(200):
+                    c = gen_poly_case(rng)
+                    if c["model"] == first["model"] and c["deg"] == first["deg"] and not isinstance(c["xrange"], str) \
+                            and well_posed_poly(c):
+                        return c
+                return None
+        else:
+            first = gen_curve_case(rng)
+
+            def another():
+                return gen_curve_case(rng, model=first["model"], yscale=first.get("yscale"))
+        fits = [first]
+        if rng.random() < 0.2:
+            fits.append(copy.deepcopy(first))          # the very same request again, both results alive
+        for _ in range(rng.randrange(1, 3)):
+            c = another()
+            if c is None:
+                break
+            fits.append(c)
+        if len(fits) < 2:
+            continue
+        if rng.random() < 0.3:
+            other = gen_curve_case(rng) if first["kind"] == "poly" else gen_poly_case(rng)
+            if other["kind"] == "curve" or (not isinstance(other["xrange"], str) and well_posed_poly(other)):
+                fits.insert(rng.randrange(1, len(fits) + 1), other)
+        return {"kind": "multi", "fits": fits}
+    return None
+
+
+def multi_in_domain(case):
+    return len(case["fits"]) >= 1 and all(
+        in_domain(c) and (c["kind"] != "poly" or well_posed_poly(c)) for c in case["fits"])
+
+
+def run_multi(case):
+    """perform all the fits, keep every result, THEN observe each result in full; returns [(fit case, obs)]"""
+    import numpy as np
+    runs = [(c, run_case(c)) for c in case["fits"]]
+    for c, obs in runs:
+        if obs.get("_res") is not None:
+            with warnings.catch_warnings():
+                warnings.simplefilter("ignore")
+                with np.errstate(all="ignore"):
+                    obs["result"] = observe(obs["_res"], c)
+    return runs
+
+
+def shrink_multi(case, fails):
+    best = dict(case)
+
+    def attempt(c):
+        nonlocal best
+        try:
+            if multi_in_domain(c) and fails(c):
+                best = c
+                return True
+        except Exception:  # noqa
+            pass
+        return False
+    changed = True
+    while changed and len(best["fits"]) > 1:
+        changed = False
+        for i in range(len(best["fits"])):
+            if attempt(dict(best, fits=best["fits"][:i] + best["fits"][i + 1:])):
+                changed = True
+                break
+    for i in range(len(best["fits"])):
+        small = shrink_case(best["fits"][i], lambda c, i=i: multi_in_domain(dict(best, fits=best["fits"][:i] + [c] + best["fits"][i + 1:]))
+                            and fails(dict(best, fits=best["fits"][:i] + [c] + best["fits"][i + 1:])))
+        attempt(dict(best, fits=best["fits"][:i] + [small] + best["fits"][i + 1:]))
+    return best
 
 
 def shrink_history(case, fails):
@@ -862,6 +1090,50 @@ def observe_params(params, pcorr):
     }
 
 
+REEVAL_EDITS = ("monte-carlo", "recalculate", "mc-settings", "override-value", "override-error")
+
+
+def reevaluate(res, case, ev):
+    q = _q()
+    f = res.fit_function
+    edits, vals, errs = [], [], []
+    for i, x in enumerate(ev):
+        first = f(x)
+        how = REEVAL_EDITS[(i + int(case.get("reeval_shift", 0))) % len(REEVAL_EDITS)]
+        if how == "monte-carlo":
+            first.error_method = q.ErrorMethod.MONTE_CARLO
+            _ = first.value, first.error
+        elif how == "recalculate":
+            _ = first.value
+            first.recalculate()
+        elif how == "mc-settings":
+            first.error_method = q.ErrorMethod.MONTE_CARLO
+            first.mc.sample_size = 500
+            first.mc.use_mode_with_confidence(0.5)
+            _ = first.value
+        elif how == "override-value":
+            first.value = float(first.value) * 2 + 1
+        else:
+            first.error = float(first.error) * 3 + 1
+        second = f(x)
+        edits.append(how)
+        vals.append(float(second.value))
+        errs.append(float(second.error))
+    out = {"again_edit": edits, "again": vals, "again_band": errs}
+    if case.get("plot"):
+        import qexpy.plotting as qplt
+        import matplotlib.pyplot as pyplot
+        ends = [float(min(case["xs"])), float(max(case["xs"]))]
+        out["plot_first"] = [float(f(x).value) for x in ends]
+        fig = qplt.plot(res)
+        fig.show()
+        pyplot.close("all")
+        out["plot_eval"] = ends
+        out["plot_again"] = [float(f(x).value) for x in ends]
+        out["plot_again_band"] = [float(f(x).error) for x in ends]
+    return out
+
+
 def observe(res, case):
     """everything C07 talks about, read through the public API (plus the stored correlation matrix).
     The parameter-level observations come first; if evaluating the fitted function raises, that is recorded
@@ -891,6 +1163,11 @@ def observe(res, case):
             "residuals": [float(r.value) for r in res.residuals],
             "chi2": float(res.chi_squared), "ndof": int(res.ndof),
         })
+        # evaluate again at the same points after the value returned the first time was used / modified by its owner
+        # (switched to Monte Carlo and read, recalculated, Monte Carlo settings changed, value overridden), and after the
+        # result was drawn: what fit_function returns must still be the model at the returned parameters
+        again = reevaluate(res, case, ev)
+        out.update(again)
     except Exception as e:  # noqa
         out["eval_exn"] = "{}: {}".format(type(e).__name__, str(e)[:120])
     return out
@@ -962,8 +1239,12 @@ def coq_res_case(case, obs):
     fm = {"linear": "(FRat MLin)", "quadratic": "(FRat MQuad)", "polynomial": "(FRat MPoly)",
           "userquad": "(FRat MUserQuad)"}.get(m, "FTable")
     table = coq_list(["({}, {})".format(qlit(x), qlit(v)) for x, v in zip(case["xs"], r["table"])])
-    ev = coq_list(["({}, ({}, {}, {}))".format(qlit(x), qlit(a), qlit(b), qlit(c))
-                   for x, a, b, c in zip(r["eval"], r["scalar"], r["list"], r["array"])])
+    rows = list(zip(r["eval"], r["scalar"], r["list"], r["array"]))
+    # second evaluations (after the first returned value was modified / the result was drawn) must give the model value again
+    # (the first evaluation stands in the scalar column: the repeated one must be the very same number)
+    rows += [(x, a0, a, a) for x, a0, a in zip(r["eval"], r["scalar"], r.get("again", []))]
+    rows += [(x, a0, a, a) for x, a0, a in zip(r.get("plot_eval", []), r.get("plot_first", []), r.get("plot_again", []))]
+    ev = coq_list(["({}, ({}, {}, {}))".format(qlit(x), qlit(a), qlit(b), qlit(c)) for x, a, b, c in rows])
     return "(Build_res_case {} {} {} {} {} {} {} {} {} {} {} {} {} {})".format(
         fm, qlist(raw["popt"]), qmat(raw["pcov"]), coq_dpts(case), table, ev, qlist(r["residuals"]), qlit(r["chi2"]),
         zlit(r["ndof"]), qlist(obs["errs"]), qmat(r["pcorr"]), qmat(r["getcorr"]), qmat(r["getcov"]), qmat(r["printed"]))
@@ -1014,6 +1295,9 @@ def shrink_case(case, fails):
     for key, val in (("mode", "lists"), ("designator", "str"), ("xrange_type", "tuple")):
         if best.get(key) not in (None, val):
             attempt(dict(best, **{key: val}))
+    for key in ("numtype", "parnames", "preread", "plot", "as_lambda"):
+        if best.get(key):
+            attempt({k: v for k, v in best.items() if k != key})
     for key in ("xrange", "xerr", "yerr"):
         if best.get(key) is not None:
             attempt(dict(best, **{key: None}))
